@@ -62,7 +62,8 @@ PROPS = {
     },
     "C10": {
         "level": "translation_validation",
-        "units": [SimplifyTVUnit(reuse_only=True)],
+        "units": [SimplifyTVUnit(reuse_only=True),
+                  arms("c10_", "TracingVmEval::resize_slots / BulkVmEval::resize_slots (verbatim bodies, from an arbitrary earlier state of the evaluator object)")],
     },
     "C13": {
         "level": "translation_validation",
@@ -71,6 +72,15 @@ PROPS = {
     "C16": {
         "level": "translation_validation",
         "units": [ShapesTVUnit()],
+    },
+    "C14": {
+        "level": "model_checking",
+        "units": [KaniUnit("kernels", "c14_", ["<f32 as fidget_core::shape::Transformable>::transform", "<Interval as Transformable>::transform",
+                                               "<Grad as Transformable>::transform"],
+                           {"width": "all 16 matrix entries (incl. the projective row), positions / boxes / derivative seeds symbolic on the lattice k/4, "
+                                     "|k|<=8 (positions of the point harness: |k|<=16), homogeneous coordinate w in {+-0.5, +-1, +-2, +-4}: real "
+                                     "arithmetic is exact in f32 there, so the assertions are exact and independent of operation order", "unwind": 8},
+                           LIBM_ASSUME[1:], [])],
     },
     "C15": {
         "level": "translation_validation",
